@@ -298,7 +298,7 @@ theorem not_stale_of_served {m : Entry} {now : Int} {force : Nat} {skip : Bool} 
   | true =>
     exfalso
     rw [decide_of_stale skip inm ims suffix hs] at hd
-    by_cases hc : force = 0 ∧ skip = true
+    by_cases hc : skip = true
     · rw [if_pos hc] at hd
       injection hd with hd
       rcases hk with hk | ⟨a, hk⟩ <;> (rw [hk] at hd; cases hd)
@@ -571,7 +571,8 @@ theorem boundary_force (m : Entry) (now : Int) (force : Nat)
 example : explicitLifetime (st exBare) = .unbounded
     ∧ (ageOf exBare 1700000119).1 = 119 ∧ shouldRevalidate exBare 1700000119 120 = false
     ∧ (ageOf exBare 1700000120).1 = 120 ∧ shouldRevalidate exBare 1700000120 120 = true
-    ∧ Freshness.decide exBare 1700000120 120 true [] [] none = .ok (.revalidate false 120) := by
+    ∧ Freshness.decide exBare 1700000120 120 false [] [] none = .ok (.revalidate false 120)
+    ∧ Freshness.decide exBare 1700000120 120 true [] [] none = .ok (.staleServe 120) := by
   decide +kernel
 
 /-! ### E. a stale response only inside an allowance -/
@@ -618,12 +619,12 @@ theorem within_of_canStaleIfError (m : Entry) (now : Int)
     rw [hn] at h
     exact withinWindow_of_gt (st m) now n (by simpa using h)
 
-/-- the decision "stale copy" is only taken when the caller asked for it (`skipRevalidate`),
-    the rule has no force_revalidate, and a revalidation is in fact due -/
+/-- the decision "stale copy" is only taken when the caller asked for it (`skipRevalidate`)
+    and a revalidation is in fact due -/
 theorem stale_only_when_asked (m : Entry) (now : Int) (force : Nat) (skip : Bool) (inm ims : Bytes)
     (suffix : Option Bytes) (a : Int)
     (hd : Freshness.decide m now force skip inm ims suffix = .ok (.staleServe a)) :
-    skip = true ∧ force = 0 ∧ shouldRevalidate m now force = true ∧ a = (st m).age now := by
+    skip = true ∧ shouldRevalidate m now force = true ∧ a = (st m).age now := by
   cases hs : shouldRevalidate m now force with
   | false =>
     exfalso
@@ -633,11 +634,11 @@ theorem stale_only_when_asked (m : Entry) (now : Int) (force : Nat) (skip : Bool
     | ok b => rw [hc] at hd; cases b <;> cases hd
   | true =>
     rw [decide_of_stale skip inm ims suffix hs, ageOf_fst_st] at hd
-    by_cases hc : force = 0 ∧ skip = true
+    by_cases hc : skip = true
     · rw [if_pos hc] at hd
       injection hd with hd
       injection hd with hd
-      exact ⟨hc.2, hc.1, rfl, hd.symm⟩
+      exact ⟨hc, rfl, hd.symm⟩
     · rw [if_neg hc] at hd
       cases hd
 
@@ -660,7 +661,7 @@ theorem stale_only_within_swr (lock : Bool) (m : Entry) (now : Int) (force : Nat
     | ok b => rw [hc] at hg; cases b <;> cases hg
   | true =>
     rw [get_of_stale lock false inm ims suffix hs, ageOf_fst_st] at hg
-    have hc : ¬ (force = 0 ∧ false = true) := by simp
+    have hc : ¬ (false = true) := by simp
     rw [if_neg hc] at hg
     cases lock with
     | false => cases hg
@@ -689,24 +690,24 @@ example : staleIfErrorReentry 503 exAllowances.header ((st exAllowances).age 170
     ∧ staleIfErrorReentry 304 exAllowances.header ((st exAllowances).age 1700000100) = false := by
   decide +kernel
 
-/-- with a non-zero force_revalidate the caller's request for the stale copy is ignored
-    (caching.go:209-212).  Consequence for the handler (System level, `revalidation_terminates`):
-    the stale-if-error re-entry of server.go:380-393 is answered "revalidate" again, so a rule
-    with force_revalidate whose origin keeps failing re-enters without bound. -/
-theorem skip_ignored_under_force (m : Entry) (now : Int) (force : Nat) (inm ims : Bytes)
-    (suffix : Option Bytes) (hf : force ≠ 0) :
-    Freshness.decide m now force true inm ims suffix = Freshness.decide m now force false inm ims suffix := by
-  unfold Freshness.decide
-  simp only [hf, ne_eq, not_false_eq_true, if_true]
+/-- since the fix: commit for finding C08-c a non-zero force_revalidate no longer cancels the caller's
+    request for the stale copy (the line `skipRevalidate = false` of caching.go is gone): the
+    stale-if-error re-entry of server.go is answered with the stored entry, on every rule.  Before the
+    fix the re-entry was answered "revalidate" again and a rule with force_revalidate whose origin kept
+    failing re-entered without bound (system level: `Props.SysCache`, witness stream kf.C08-c). -/
+theorem skip_honoured_under_force (m : Entry) (now : Int) (force : Nat) (inm ims : Bytes)
+    (suffix : Option Bytes) (hs : shouldRevalidate m now force = true) :
+    Freshness.decide m now force true inm ims suffix = .ok (.staleServe (ageOf m now).1) := by
+  rw [decide_of_stale true inm ims suffix hs]; simp
 
-example : Freshness.decide exAllowances 1700000075 7 true [] [] none = .ok (.revalidate true 75) := by
+example : Freshness.decide exAllowances 1700000075 7 true [] [] none = .ok (.staleServe 75) := by
   decide +kernel
 
 /-- **a stale response only within the allowances the origin granted** -/
 theorem stale_only_within_allowance (m : Entry) (now : Int) (force : Nat) (inm ims : Bytes)
     (suffix : Option Bytes) :
     (∀ skip a, Freshness.decide m now force skip inm ims suffix = .ok (.staleServe a) →
-        skip = true ∧ force = 0 ∧ shouldRevalidate m now force = true ∧ a = (st m).age now)
+        skip = true ∧ shouldRevalidate m now force = true ∧ a = (st m).age now)
     ∧ (∀ lock a, Freshness.get lock m now force false inm ims suffix = .ok (.foundStale a) →
         lock = true ∧ withinStaleWhileRevalidate (st m) now = true)
     ∧ (∀ status, staleIfErrorReentry status m.header ((st m).age now) = true →
@@ -741,10 +742,10 @@ theorem holds_get_partial (lock : Bool) (m : Entry) (now : Int) (force : Nat) (s
     have hf : isFresh (st m) now force = false :=
       (shouldRevalidate_iff_partial m now force hz ha hb).1 hs
     rw [get_of_stale lock skip inm ims suffix hs, ageOf_fst_st] at hg
-    by_cases hc : force = 0 ∧ skip = true
+    by_cases hc : skip = true
     · rw [if_pos hc] at hg
       injection hg with hg
-      rw [← hg]; simp [holds, obsOf, hc.2]
+      rw [← hg]; simp [holds, obsOf, hc]
     · rw [if_neg hc] at hg
       cases lock with
       | false =>
